@@ -28,6 +28,7 @@ RULE = ("2..4 consumer tasks each advancing one tee child of an instrumented cla
 ASSUMPTIONS = ["without a lock only non-suspending sources are claimed (as the property states)",
                "class-based cancellation-safe source: an item is consumed only after the last suspension of __anext__",
                "consumers close their child when they stop (owner closes what it advanced)"]
+EXHAUSTIVE_SUBSPACES = 'every scenario counted in scenarios_explored_exhaustively had ALL its interleavings executed (stateless DFS emptied its frontier)'
 EXHAUSTIVE = {"quick": False, "thorough": False}
 N_SCEN = {"quick": 600, "thorough": 6000}
 DFS_LIMIT = {"quick": 1500, "thorough": 40000}
